@@ -2,6 +2,6 @@
 TC=/root/go/pkg/mod/golang.org/toolchain@v0.0.1-go1.26.5.linux-amd64/bin
 if [ -x "$TC/go" ]; then export PATH="$TC:$PATH"; else
   # fallback: pre-installed go1.26.8
-  mkdir -p /verif/bin/gowrap; ln -sf "$(command -v go1.26.8)" /verif/bin/gowrap/go; export PATH="/verif/bin/gowrap:$PATH"
+  VR=${VROOT:-/verif}; mkdir -p $VR/bin/gowrap; ln -sf "$(command -v go1.26.8)" $VR/bin/gowrap/go; export PATH="$VR/bin/gowrap:$PATH"
 fi
 export GOTOOLCHAIN=local GOFLAGS=-mod=mod GOPROXY=off GOSUMDB=off GONOSUMCHECK=1 GONOSUMDB='*'
